@@ -8,7 +8,12 @@
 //     signature verifier, MemPoolDel after every connected block, MemPoolPut of transactions a reorganisation returns),
 //   - the real block path: ChainService.addBlock -> ValidateBody (parallel signVerifier) -> blockExecutor.execute ->
 //     executeTx ... -> WaitVerifyDone, including side branches and reorganisations with the same tx on both branches,
-//   - the bare executeTx with and without a pool-verified account.
+//   - the bare executeTx with and without a pool-verified account,
+//   - blocks whose HEADER carries another fork version of the chain id / another chain's id / a short or no chain id,
+//   - MemPool.loadTxs on a dump file (start-up of a node with a pool dump),
+//   - the node's own block production: the real sbp.SimpleBlockFactory loop (BlockGenerator.GatherTXs -> MemPoolGet ->
+//     executeTx with the pool's verified accounts -> ConnectBlock -> addBlock with the factory's block state),
+//   - blocks with many more transactions than the signature verifier has workers.
 //
 // Every operation is also given to the Lean model (model-c04) as one line; the model answers with the identity as hash
 // and an ideal signature scheme, the harness tells it who signed which fields and from which fields a hash was computed.
@@ -2203,7 +2208,8 @@ func main() {
 		"block and on side branches (reorganisations, same tx on both branches), built from valid transfers / calls / name create+update, replays of "+
 		"included txs, wrong-key and moved signatures, foreign chain id / other fork version, nonce gaps / duplicates / zero, name senders (owner, "+
 		"not owner, unregistered, former owner after a hand-over), altered-after-hash, field-boundary shifts, failing block followed by forged / empty "+
-		"/ valid block; pool admissions; Validate / VerifyTx / block-level verifyTx / bare executeTx on the same txs. non-trivial = accepted / "+
+		"/ valid block; block headers with another fork version / another chain's id; start-up load of a pool dump file; the node's own block production "+
+		"(real block factory from the real pool); blocks of 6..250 txs with one forged; pool admissions; Validate / VerifyTx / block-level verifyTx / bare executeTx on the same txs. non-trivial = accepted / "+
 		"executed; distinct by (op, answer). Oracle after every block on the node's own main chain.")
 	defer run.Finish()
 	w := newWorld(filepath.Join(run.Out, "nodes"))
